@@ -4,14 +4,44 @@
 (ii) running sums / recurrences: instances that have processed 10^5 (quick) / 10^7 (thorough) inputs with regime changes
      are checkpointed: the spec rebuilds its state from the recent inputs alone and checks the following outputs against
      the definition with the allowance at step t (Trace_Num's ckpt action) -- i.e. a long past behaves like a fresh
-     instance primed with the last window, and the error stays inside the linear bound of DESIGN section 4."""
+     instance primed with the last window, and the error stays inside the linear bound of DESIGN section 4;
+(iii) subjects whose state cannot be rebuilt from a window (Vidya and the other recurrences; every indicator): streams of
+     thousands of steps made of LONG regimes (steady rallies / declines of > PeriodType::MAX bars without a pullback, flat
+     stretches, scale jumps) validated from the first step against the recurrences (Trace_Num) and the indicator
+     state machines (Trace_Ind, values and signals)."""
 import os, json
 from verif import *
-import tokfam, numfam
+import tokfam, numfam, indfam
 
 
 def lines_of(out):
     return [json.loads(l) for l in out.splitlines() if l.startswith("{")]
+
+
+ANCHORED = ["ParabolicSAR", "ChandeMomentumOscillator", "MoneyFlowIndex", "RelativeStrengthIndex"]
+# signals driven by position counters (reversal detectors, highest/lowest indices)
+COUNTER_SIGNALS = ["AwesomeOscillator", "PivotReversalStrategy", "Aroon", "TrendStrengthIndex", "DonchianChannel", "PriceChannelStrategy"]
+
+
+def long_indicators(chk, yv, quick):
+    wd = workdir("c07ind")
+    names = [c["name"] for c in json.loads(run_harness(yv, ["ind-catalog"]))]
+    os.environ["YV_LONG_REGIMES"] = "1"
+    vfiles, sfiles = [], []
+    try:
+        for n in names:
+            f = os.path.join(wd, "long_%s.ndjson" % n)
+            progs = (2 if n in ANCHORED else 1) if quick else 4
+            ne = lines_of(run_harness(yv, ["ind-record", chk.seed * 100 + 7, progs, 1500 if quick else 5000, 1, f, n]))[0]["events"]
+            vfiles.append((f, ne))
+            if not quick or n in ANCHORED or n in COUNTER_SIGNALS:
+                sfiles.append((f, ne))
+    finally:
+        os.environ.pop("YV_LONG_REGIMES", None)
+    indfam.validate(chk, vfiles, "values", "long-stream-values", nproc=8 if quick else 14)
+    indfam.validate(chk, sfiles, "signals", "long-stream-signals", nproc=8 if quick else 14)
+    chk.stage("B:long-indicator-streams", indicators=len(names), steps_per_program=1500 if quick else 5000,
+              regimes="steady rally/decline of 270..470 bars, flat, volatile, scale jumps")
 
 
 def run(chk):
@@ -27,6 +57,14 @@ def run(chk):
               "positions renumbered before saturation", {"PMAX": 7}, workers=6)
     if not quick:
         tokfam.mc(chk, "MC_Tok_rev15.cfg", "same with PMAX = 15", {"PMAX": 15}, workers=10)
+    # (iii) long streams validated from the first step
+    s = chk.seed
+    if quick:
+        rjobs = [("rec", s * 100 + 70 + i, 4, 3000, 0, "Vidya") for i in range(3)] + [("rec", s * 100 + 80, 13, 1500, 0)]
+    else:
+        rjobs = [("rec", s * 100 + 70 + i, 4, 20000, 0, "Vidya") for i in range(6)] + [("rec", s * 100 + 80 + i, 13, 8000, 0) for i in range(4)]
+    f3 = background(numfam.record_validate, chk, yv, "c07rec", rjobs, nproc=4)
+    f4 = background(long_indicators, chk, yv, quick)
     # soak checkpoints
     jobs = []
     for i in range(2 if quick else 3):
@@ -54,6 +92,8 @@ def run(chk):
     chk.stage("B:soak", traces=len(jobs), steps_per_instance=[j[2] for j in jobs], subjects=19, instances_per_trace=76 if not quick else 64)
     f1.result()
     f2.result()
+    f3.result()
+    f4.result()
     chk.sample({"direction": "B", "checkpoint": {k: v for k, v in [e for e in read_ndjson(jobs[0][0]) if e["ev"] == "ckpt"][0].items() if k != "warm"}})
     chk.assumptions += ["exponential kinds: inputs older than 24/alpha steps weigh < e^-48 and are dropped from the checkpoint",
                         "the allowance at step t is eps*(16k+8t)*S (linear in t); a design whose error grows faster would be rejected at 10^7 steps"]
